@@ -2303,10 +2303,11 @@ def nulljson_case(case):
     else:
         exp = {}
         for rec in recs:
+            e = exp.setdefault(rec["g"], {})         # groups in order of first appearance, whether or not that record has x / y
             for f in ("x", "y"):
                 if f in rec:
-                    e = exp.setdefault(rec["g"], {})
                     e[f + "_null_count"] = e.get(f + "_null_count", 0) + (1 if isnull(rec[f]) else 0)
+        exp = {g_: c for g_, c in exp.items() if c}
         got = {o.get("g"): {k: v for k, v in o.items() if k != "g"} for o in out}
         got = {g_: c for g_, c in got.items() if c}        # a group in which neither field ever occurs: emitted bare or not at all
         if got != exp or [o.get("g") for o in out if o.get("g") in got] != list(exp):
